@@ -1,132 +1,104 @@
-// probe (temporary)
-use mdk_core::MDK;
-use mdk_core::extension::NostrGroupDataExtension;
-use mdk_core::groups::{NostrGroupConfigData, NostrGroupDataUpdate};
-use mdk_memory_storage::MdkMemoryStorage;
-use nostr::base64::Engine;
-use nostr::base64::engine::general_purpose::STANDARD as B64;
-use nostr::{Event, EventBuilder, EventId, Keys, Kind, RelayUrl, Tag, TagKind};
-use openmls::group::GroupContext;
-use openmls::prelude::*;
-use openmls_basic_credential::SignatureKeyPair;
-use openmls_traits::OpenMlsProvider as _;
-use tls_codec::{Deserialize as _, Serialize as _};
+//! htables: executes the cases enumerated by TLC from Tables.tla against the real mdk code and drives the
+//! media-history scenarios of TablesMedia.tla.  Rust only executes and projects; the verdict is TLC's.
+//!
+//!   htables tables <cases.ndjson> <out.ndjson> seed=N inst=K tables=ext,kp,... tier=quick
+//!   htables hist   <out.ndjson> seed=N n=K backend=mem|sql|mixed
 
-fn vl(n: usize) -> Vec<u8> {
-    // MLS variable-length header (QUIC style)
-    if n < 64 {
-        vec![n as u8]
-    } else if n < 16384 {
-        vec![0x40 | (n >> 8) as u8, n as u8]
-    } else {
-        vec![0x80 | (n >> 24) as u8, (n >> 16) as u8, (n >> 8) as u8, n as u8]
+mod enc;
+mod generate;
+mod hist;
+mod t_ext;
+mod t_kp;
+mod t_media;
+mod t_wl;
+
+use std::collections::HashMap;
+use std::io::{BufRead, Write};
+use std::panic::{AssertUnwindSafe, catch_unwind};
+
+use serde_json::{Value, json};
+
+fn kv(args: &[String]) -> HashMap<String, String> {
+    let mut m = HashMap::new();
+    for a in args {
+        if let Some((k, v)) = a.split_once('=') {
+            m.insert(k.to_string(), v.to_string());
+        }
+    }
+    m
+}
+
+fn panic_obs(t: &str) -> Value {
+    match t {
+        "media" => json!({"enc":"panic","dec":"panic","err":"panic"}),
+        "gimg" => json!({"dec":"panic","err":"panic"}),
+        "ext" | "extenc" => json!({"res":"panic","ver":-1,"hash":false,"key":false,"nonce":false,"upload":false,"equal":false,"err":"panic"}),
+        _ => json!({"res":"panic","equal":false,"err":"panic"}),
     }
 }
-fn vlb(b: &[u8]) -> Vec<u8> {
-    let mut o = vl(b.len());
-    o.extend_from_slice(b);
-    o
-}
 
-fn ctx_with_ext(ext_bytes: &[u8]) -> Result<GroupContext, String> {
-    let mut o = vec![];
-    o.extend_from_slice(&1u16.to_be_bytes()); // mls10
-    o.extend_from_slice(&1u16.to_be_bytes()); // ciphersuite
-    o.extend(vlb(b"gid"));
-    o.extend_from_slice(&3u64.to_be_bytes());
-    o.extend(vlb(&[1u8; 32]));
-    o.extend(vlb(&[2u8; 32]));
-    let mut ext = vec![];
-    ext.extend_from_slice(&0xF2EEu16.to_be_bytes());
-    ext.extend(vlb(ext_bytes));
-    o.extend(vlb(&ext));
-    GroupContext::tls_deserialize_exact(&o).map_err(|e| format!("{e:?}"))
+fn run_tables(cases: &str, out: &str, opt: &HashMap<String, String>) {
+    let seed: u64 = opt.get("seed").map(|s| s.parse().unwrap()).unwrap_or(1);
+    let inst: u64 = opt.get("inst").map(|s| s.parse().unwrap()).unwrap_or(1);
+    let tier = opt.get("tier").cloned().unwrap_or("quick".into());
+    let only: Option<String> = opt.get("case").cloned(); // replay: exact JSON of one shape
+    let tables: Vec<String> = opt.get("tables").map(|s| s.split(',').map(|x| x.to_string()).collect()).unwrap_or_default();
+    let dev: Vec<String> = std::env::var("VERIF_DEV").unwrap_or_default().split(',').filter(|x| !x.is_empty()).map(|x| x.to_string()).collect();
+    let f = std::fs::File::open(cases).expect("cases file");
+    let mut w = std::io::BufWriter::new(std::fs::File::create(out).expect("out file"));
+    writeln!(w, "{}", json!({"t":"meta","tables":tables,"tier":tier,"seed":seed,"inst":inst,"dev":dev})).unwrap();
+    if std::env::var("VERIF_PANICS").is_err() { std::panic::set_hook(Box::new(|_| {})); }
+    let world = t_media::MediaWorld::new();
+    let mut n = 0u64;
+    for line in std::io::BufReader::new(f).lines() {
+        let line = line.unwrap();
+        if line.trim().is_empty() {
+            continue;
+        }
+        let c: Value = serde_json::from_str(&line).expect("case json");
+        let t = c["t"].as_str().unwrap().to_string();
+        if !tables.iter().any(|x| *x == t) {
+            continue;
+        }
+        let shape = c["s"].clone();
+        let key = format!("{}|{}", t, shape);
+        if let Some(o) = &only {
+            if *o != key {
+                continue;
+            }
+        }
+        for i in 0..inst {
+            let mut r = generate::rng_for(seed, &key, i);
+            let res = catch_unwind(AssertUnwindSafe(|| match t.as_str() {
+                "ext" => t_ext::run_decode(&mut r, &shape),
+                "extenc" => t_ext::run_encode(&mut r, &shape),
+                "kp" => t_kp::run(&mut r, &shape),
+                "welcome" => t_wl::run(&mut r, &shape),
+                "imeta" => t_media::run_imeta(&world, &mut r, &shape),
+                "media" => t_media::run_media(&world, &mut r, &shape),
+                "gimg" => t_media::run_gimg(&mut r, &shape),
+                x => panic!("unknown table {x}"),
+            }));
+            let (o, d) = match res {
+                Ok(x) => x,
+                Err(_) => (panic_obs(&t), "panic".to_string()),
+            };
+            n += 1;
+            writeln!(w, "{}", json!({"t":t,"s":shape,"o":o,"i":i,"d":d})).unwrap();
+        }
+    }
+    w.flush().unwrap();
+    eprintln!("htables: {n} cases executed");
 }
 
 fn main() {
-    // 1. group context from bytes
-    let mut e = vec![];
-    e.extend_from_slice(&1u16.to_be_bytes());
-    e.extend_from_slice(&[7u8; 32]);
-    e.extend(vlb("näme".as_bytes()));
-    e.extend(vlb(b""));
-    e.extend(vlb(&[])); // admins
-    e.extend(vlb(&[])); // relays
-    e.extend(vlb(&[])); // hash
-    e.extend(vlb(&[])); // key
-    e.extend(vlb(&[])); // nonce
-    e.extend(vlb(&[9u8; 32])); // upload key
-    let ctx = ctx_with_ext(&e).expect("ctx");
-    println!("ext v1: {:?}", NostrGroupDataExtension::from_group_context(&ctx));
-    let mut e2 = e.clone();
-    e2.push(0);
-    let ctx = ctx_with_ext(&e2).expect("ctx");
-    println!("ext trailing: {:?}", NostrGroupDataExtension::from_group_context(&ctx).is_ok());
-
-    // 2. key package trailing bytes
-    let mdk = MDK::new(MdkMemoryStorage::default());
-    let keys = Keys::generate();
-    let (content, tags, _) = mdk.create_key_package_for_event(&keys.public_key(), vec![RelayUrl::parse("wss://r.example").unwrap()]).unwrap();
-    let ev = EventBuilder::new(Kind::MlsKeyPackage, content.clone()).tags(tags.clone()).sign_with_keys(&keys).unwrap();
-    println!("kp ok: {}", mdk.parse_key_package(&ev).is_ok());
-    let mut raw = B64.decode(&content).unwrap();
-    raw.extend_from_slice(&[0, 1, 2]);
-    let ev2 = EventBuilder::new(Kind::MlsKeyPackage, B64.encode(&raw)).tags(tags.clone()).sign_with_keys(&keys).unwrap();
-    println!("kp trailing accepted: {}", mdk.parse_key_package(&ev2).is_ok());
-    let tags3: Vec<Tag> = tags.iter().filter(|t| t.as_slice()[0] != "encoding").cloned().collect();
-    let ev3 = EventBuilder::new(Kind::MlsKeyPackage, content.clone()).tags(tags3).sign_with_keys(&keys).unwrap();
-    println!("kp no encoding accepted: {}", mdk.parse_key_package(&ev3).is_ok());
-    for t in &tags {
-        println!("  tag {:?}", t.as_slice());
+    let args: Vec<String> = std::env::args().collect();
+    match args.get(1).map(|s| s.as_str()) {
+        Some("tables") => run_tables(&args[2], &args[3], &kv(&args[4..])),
+        Some("hist") => hist::run(&args[2], &kv(&args[3..])),
+        _ => {
+            eprintln!("usage: htables tables <cases> <out> k=v.. | hist <out> k=v..");
+            std::process::exit(2);
+        }
     }
-
-    // 3. welcome trailing bytes
-    let bob = MDK::new(MdkMemoryStorage::default());
-    let bk = Keys::generate();
-    let (c2, t2, _) = bob.create_key_package_for_event(&bk.public_key(), vec![RelayUrl::parse("wss://r.example").unwrap()]).unwrap();
-    let kpe = EventBuilder::new(Kind::MlsKeyPackage, c2).tags(t2).sign_with_keys(&bk).unwrap();
-    let cfg = NostrGroupConfigData::new("n".into(), "d".into(), None, None, None, vec![RelayUrl::parse("wss://r.example").unwrap()], vec![keys.public_key()]);
-    let res = mdk.create_group(&keys.public_key(), vec![kpe], cfg).unwrap();
-    let rumor = res.welcome_rumors[0].clone();
-    for t in rumor.tags.iter() {
-        println!("  wtag {:?}", t.as_slice());
-    }
-    println!("  rumor id {:?} kind {:?}", rumor.id, rumor.kind);
-    let mut r2 = rumor.clone();
-    let mut raw = B64.decode(&rumor.content).unwrap();
-    raw.extend_from_slice(&[0, 1, 2]);
-    r2.content = B64.encode(&raw);
-    r2.id = None;
-    r2.ensure_id();
-    let wid = EventId::from_slice(&[5u8; 32]).unwrap();
-    println!("welcome trailing accepted: {:?}", bob.process_welcome(&wid, &r2).map(|w| w.group_name));
-    let wid2 = EventId::from_slice(&[6u8; 32]).unwrap();
-    println!("welcome plain accepted: {:?}", bob.process_welcome(&wid2, &rumor).map(|w| w.group_name));
-
-    // 4. media: same content, different name, later epoch
-    let gid = res.group.mls_group_id.clone();
-    let mm = mdk.media_manager(gid.clone());
-    let data = b"hello world".to_vec();
-    let up1 = mm.encrypt_for_upload(&data, "text/plain", "a.txt").unwrap();
-    let tag1 = mm.create_imeta_tag(&up1, "https://x/1");
-    let rumor1 = EventBuilder::new(Kind::Custom(9), "f1").tags([tag1.clone()]).build(keys.public_key());
-    let _ev1 = mdk.create_message(&gid, rumor1).unwrap();
-    // advance epoch
-    let u = mdk.update_group_data(&gid, NostrGroupDataUpdate::new().name("x")).unwrap();
-    let _ = u;
-    mdk.merge_pending_commit(&gid).unwrap();
-    let up2 = mm.encrypt_for_upload(&data, "text/plain", "b.txt").unwrap();
-    let tag2 = mm.create_imeta_tag(&up2, "https://x/2");
-    let rumor2 = EventBuilder::new(Kind::Custom(9), "f2").tags([tag2.clone()]).build(keys.public_key());
-    let _ev2 = mdk.create_message(&gid, rumor2).unwrap();
-    let r1 = mm.parse_imeta_tag(&tag1).unwrap();
-    let r2 = mm.parse_imeta_tag(&tag2).unwrap();
-    println!("same epoch: f1 {:?} f2 {:?}", mm.decrypt_from_download(&up1.encrypted_data, &r1).is_ok(), mm.decrypt_from_download(&up2.encrypted_data, &r2).is_ok());
-    mdk.update_group_data(&gid, NostrGroupDataUpdate::new().name("y")).unwrap();
-    mdk.merge_pending_commit(&gid).unwrap();
-    println!("later epoch: f1 {:?} f2 {:?}", mm.decrypt_from_download(&up1.encrypted_data, &r1).map(|d| d == data), mm.decrypt_from_download(&up2.encrypted_data, &r2).map(|d| d == data));
-    // empty payload
-    let up0 = mm.encrypt_for_upload(&[], "text/plain", "e.txt");
-    println!("empty payload: {:?}", up0.as_ref().map(|u| u.encrypted_data.len()));
-    let _ = (SignatureKeyPair::read(mdk.provider.storage(), &[], SignatureScheme::ED25519).is_none(), TagKind::Relays, Event::verify);
 }
